@@ -338,7 +338,7 @@ HARDENING_AUDIT = {
     "7 oracle independence": "values built / read through injected word accessors (not FromComponents / Components / IsZero); "
                              "judged with math/big, the words, the hardware (f64) and the Lean model only; texts printed for "
                              "unsupported verbs and the value accompanying an error are not compared",
-    "8 hangs and crashes": "every line runs under a 4 s deadline (answered `hang`, stream skipped after two); panics in the "
+    "8 hangs and crashes": "every line runs under a 12 s deadline (answered `hang`, stream skipped after two); panics in the "
                            "line's goroutine become `panic`; stream timeout 300 s in the quick tier",
     "9 no false alarms": "no error texts, no unsupported-verb texts, no value-with-error, no struct layout; both controls "
                          "silent",
@@ -412,7 +412,7 @@ def run(ctx):
         canon = _canon_no_consts
         ctx.assumptions.append("the white-box accessor for the private float constants did not compile against this "
                                "tree; the `consts` line is not compared (black-box build, tag nooverlay)")
-    tmo = 300 if ctx.tier == "quick" else 900   # a looping mutant is answered `hang` after 4 s per line by the harness
+    tmo = 300 if ctx.tier == "quick" else 900   # a looping mutant is answered `hang` after 12 s per line by the harness
     ctx.diff(area="conv", driver="drv_c02", n={"quick": 200000, "thorough": 6000000},
              trivial=lambda l, o: l == "consts" and canon is not None, tagger=_tag, canon=canon, timeout=tmo,
              theorem="C02.* (model = specification: exact value, truncation, saturation, grammar); impl != model on "
